@@ -11,21 +11,26 @@ Local Open Scope N_scope.
 
 Definition ch_comma : N := 44.
 
-(* the comma-separated-list-of-unique-values loop (1577-1598): [scratch] is scratchStr, kept reversed *)
-Fixpoint uv_loop (s : list N) (prevEsc : bool) (scratch : list N) : list (list N) :=
+(* the comma-separated-list-of-unique-values loop (1577-1598): [scratch] is scratchStr, kept reversed.
+   [keep_esc] = the repair of finding F39: the escape characters stay in the item (as found they are dropped here
+   although DoDirectChildLookup unescapes the item once more, which turns the item a\\b into ab) *)
+Fixpoint uv_loop (keep_esc : bool) (s : list N) (prevEsc : bool) (scratch : list N) : list (list N) :=
   match s with
   | [] => if is_nil scratch then [] else [rev scratch]
   | c :: t =>
     let curEsc := (c =? ch_bsl) && negb prevEsc in
-    if curEsc then uv_loop t true scratch
-    else if prevEsc || negb (c =? ch_comma) then uv_loop t false (c :: scratch)
-    else if is_nil scratch then uv_loop t false []
-    else rev scratch :: uv_loop t false []
+    if curEsc then uv_loop keep_esc t true (if keep_esc then c :: scratch else scratch)
+    else if prevEsc || negb (c =? ch_comma) then uv_loop keep_esc t false (c :: scratch)
+    else if is_nil scratch then uv_loop keep_esc t false []
+    else rev scratch :: uv_loop keep_esc t false []
   end.
 
-(* the strings handed to node.GetChild(): DoDirectChildLookup applies RemoveEscapeChars to every key,
-   also to the list items the loop above has already unescaped *)
-Definition clause_keys (st : sm) : option (list (list N)) :=
-  if is_uvlist st then Some (map unescape (uv_loop (s_pattern st) false []))
+(* the strings handed to node.GetChild(): DoDirectChildLookup applies RemoveEscapeChars to every key *)
+Definition clause_keys_with (keep_esc : bool) (st : sm) : option (list (list N)) :=
+  if is_uvlist st then Some (map unescape (uv_loop keep_esc (s_pattern st) false []))
   else if is_unique st then Some [unescape (s_pattern st)]
   else None.
+
+(* following the sources the translator has just read *)
+Definition clause_keys (st : sm) : option (list (list N)) :=
+  clause_keys_with (negb (c_c05_uvkeys_as_found =? 1)) st.
